@@ -125,6 +125,15 @@ CHECKS += [
     },
 ]
 
+CHECKS += [
+    {
+        "property_id": "C15", "engine": "symx", "category": "model_checking",
+        "technique": "symbolic execution of StateTomography.process with an arbitrary symbolic density matrix injected through a noiseless-oracle callback + z3 (linear identities in the entries of rho with exact algebraic coefficients)",
+        "text": "For every Hermitian unit-trace matrix rho (4^n-1 real solver variables, n=1,2; 3 in thorough) and base circuits incl. the library's post-selected CNOT and heralded CZ: the callback is called once with exactly 3^n circuits, one per element of {X,Y,Z}^n, each equal to the base circuit followed by 2x2 basis-change blocks on the qubit mode pairs and identity elsewhere; process() returns rho entrywise (hence Hermitian, unit trace, the outer product for pure states, entangled or not); the base circuit is unchanged.",
+        "design_ref": "DESIGN.md section 4 C15", "note": SYMX_NOTE + " fidelity() (scipy sqrtm) is outside the claim.",
+    },
+]
+
 _TODO = "check not built yet in this round; see DESIGN.md section 4 for the plan"
 NOT_APPLICABLE = [
     {"property_id": f"C{i:02d}", "reason": _TODO} for i in range(2, 20) if f"C{i:02d}" not in {c["property_id"] for c in CHECKS}
